@@ -290,6 +290,12 @@ def implLoop : Nat → P → Nat → (Nat × Option Err) × P
         | ((some _, some e), p) => ((cnt + 1, some e), p)
         | ((some _, none), p) => implLoop n p (cnt + 1)
 
+/-- `if b, err = p.skipSpace(); b == '&' { readByte }` -/
+def ampOpt (p : P) : Option Err × P :=
+  match skipSp cm p with
+  | (none, p) => (some ioErr, p)
+  | (some b, p) => if b == 38 then (none, reRead p) else (none, p)
+
 /-- `readImplements` -/
 def readImplements (p : P) : Option Err × P :=
   match skipSp cm p with
@@ -299,16 +305,10 @@ def readImplements (p : P) : Option Err × P :=
     else
       match readToken cm p with
       | ((tok, ioe), p) =>
-        let e0 : Option Err := if tok != kw_implements then some p.perr else (if ioe then some ioErr else none)
-        match e0 with
-        | some e => (some e, p)
-        | none =>
-          -- if b, err = p.skipSpace(); b == '&' { readByte }
-          let r : Option Err × P :=
-            match skipSp cm p with
-            | (none, p) => (some ioErr, p)
-            | (some b, p) => if b == 38 then (none, reRead p) else (none, p)
-          match r with
+        if tok != kw_implements then (some p.perr, p)       -- also replaces a reader error
+        else if ioe then (some ioErr, p)
+        else
+          match ampOpt cm p with
           | (some e, p) => (some e, p)
           | (none, p) =>
             match implLoop cm p.vfuel p 0 with
